@@ -1,6 +1,7 @@
 package main
 
 import (
+	"testing/iotest"
 	"io"
 	"bytes"
 	"encoding/binary"
@@ -50,7 +51,14 @@ func init() {
 	implOps["auth2_read_plain"] = func(a []string) []string {
 		in := unhx(a[0])
 		cr := &countingReader{r: bytes.NewReader(in)}
-		v, err := signature.ReadEFIVariableAuthencation2(cr)
+		var src io.Reader = cr
+		switch len(in) % 3 {
+		case 1:
+			src = iotest.HalfReader(cr)
+		case 2:
+			src = iotest.OneByteReader(cr)
+		}
+		v, err := signature.ReadEFIVariableAuthencation2(src)
 		if err != nil {
 			return []string{"err"}
 		}
@@ -90,11 +98,25 @@ func init() {
 		if len(a) > 1 && a[1] == "buffer" {
 			r = bytes.NewBuffer(in)
 		}
-		w, err := signature.ReadWinCertificate(r)
+		var src io.Reader = r
+		cr := &countingReader{r: bytes.NewReader(in)}
+		if len(a) > 1 {
+			// readers that deliver less than was asked for (a pipe, a buffered file)
+			switch a[1] {
+			case "half":
+				src = iotest.HalfReader(cr)
+			case "onebyte":
+				src = iotest.OneByteReader(cr)
+			}
+		}
+		w, err := signature.ReadWinCertificate(src)
 		if err != nil {
 			return []string{"err"}
 		}
 		left := r.Len()
+		if src != io.Reader(r) {
+			left = len(in) - cr.n
+		}
 		if b, ok := r.(*bytes.Buffer); ok {
 			// the caller reuses its buffer
 			for i := range in {
@@ -109,7 +131,7 @@ func init() {
 			fmt.Sprint(left), hx(wb.Bytes())}
 	}
 	checkers["C10"] = checker{
-		rule: "descriptors built field by field (any timestamp incl. non-zero pad/nanosecond/timezone fields, certificate data 0..tier bound, any type GUID, any payload), the sbvarsign fixtures, and near-valid mutants (every truncation class, dwLength below/above the data, wrong revision, wrong certificate type), bare WIN_CERTIFICATEs of every certificate type and length residue mod 8 followed by a payload; each is decoded by the implementation in a sandboxed worker through ReadEFIVariableAuthencation2 (over a byte reader and over a reader offering only Read, which counts what was taken), Unmarshal and ReadWinCertificate (over a reader or a bytes.Buffer which the caller overwrites and reuses before re-encoding the value), and R_C10 (extracted) compares fields, bytes left in the reader and the re-encoding; non-trivial = the model decodes the input successfully; distinct by input hash",
+		rule: "descriptors built field by field (any timestamp incl. non-zero pad/nanosecond/timezone fields, certificate data 0..tier bound, any type GUID, any payload), the sbvarsign fixtures, and near-valid mutants (every truncation class, dwLength below/above the data, wrong revision, wrong certificate type), bare WIN_CERTIFICATEs of every certificate type and length residue mod 8 followed by a payload; each is decoded by the implementation in a sandboxed worker through ReadEFIVariableAuthencation2 (over a byte reader and over readers offering only Read -- whole, half and one byte at a time --, which count what was taken), Unmarshal and ReadWinCertificate (over a reader or a bytes.Buffer which the caller overwrites and reuses before re-encoding the value), and R_C10 (extracted) compares fields, bytes left in the reader and the re-encoding; non-trivial = the model decodes the input successfully; distinct by input hash",
 		run:  runC10,
 	}
 }
@@ -151,7 +173,10 @@ func runC10(c *Ctx) {
 		c.Rep.Record(entry, class, nt, fmt.Sprintf("%d bytes", len(in)), args, v, info, map[string]string{"entry": entry, "input": class})
 	}
 	evalWin := func(class string, in []byte) {
-		o := c.Impl("wincert_read", hx(in), pick(rng, []string{"reader", "buffer"}))
+		// (iotest.DataErrReader reads ahead by design, so what is left behind it cannot be measured: not used here)
+		kind := pick(rng, []string{"reader", "buffer", "reader", "buffer", "half", "onebyte"})
+		class += "/" + kind
+		o := c.Impl("wincert_read", hx(in), kind)
 		fields := o.Fields
 		if o.Class != "ret" || len(fields) == 0 {
 			fields = []string{o.Class}
